@@ -115,7 +115,8 @@ pub fn new(parameters: &RawParameters, _ctx: &dyn Context) -> Result<Op, Error> 
 
     // We may use `ellps, da, df`, to parameterize the op, but `ellps_0, ellps_1`
     // is a more likely set of parameters to come across in real life.
-    if params.given.contains_key("ellps_0") && params.given.contains_key("ellps_1") {
+    // (the source ellipsoid, `ellps_0`, may as well be given as `ellps`, or be left at its default)
+    if params.given.contains_key("ellps_1") {
         let da = ellps_1.semimajor_axis() - ellps_0.semimajor_axis();
         let df = ellps_1.flattening() - ellps_0.flattening();
         params.real.insert("da", da);
